@@ -25,6 +25,7 @@ type verifAEAD struct {
 func (a verifAEAD) Encrypt(p, ad []byte) ([]byte, error) {
 	if a.failTag != "" {
 		if nondetBool(a.failTag) {
+			ghostLog("aead.encrypt.failed")
 			return nil, verifErrInjected
 		}
 	}
@@ -175,4 +176,9 @@ func verifDBPath(fail bool) string {
 		return filepath.Join(os.Getenv("VERIF_TMP"), "no-such-dir", "verif.db")
 	}
 	return filepath.Join(os.Getenv("VERIF_TMP"), "verif.db")
+}
+
+// verifFaulted reports whether an injected save fault fired during the call.
+func verifFaulted() bool {
+	return ghostCount("disk.write.failed")+ghostCount("aead.encrypt.failed") > 0
 }
